@@ -12,13 +12,14 @@ pub enum Abn {
     /// panic: signature "panic|file|function|masked message"
     Panic(String),
     /// step budget exhausted: dominant loop site
-    Budget { dominant: u32, last: u32 },
+    Budget { dominant: u32, last: u32, rule_type: u32 },
 }
+pub fn rule_type_name(t: u32) -> &'static str { match t { 0 => "substitution", 1 => "metathesis", 2 => "deletion", 3 => "insertion", _ => "outside-rule" } }
 impl Abn {
     pub fn signature(&self) -> String {
         match self {
             Abn::Panic(s) => s.clone(),
-            Abn::Budget { dominant, .. } => format!("budget|site{dominant}"),
+            Abn::Budget { dominant, rule_type, .. } => format!("budget|{}|site{dominant}", rule_type_name(*rule_type)),
         }
     }
 }
@@ -27,10 +28,15 @@ pub type Guarded<T> = Result<Result<T, Error>, Abn>;
 
 thread_local! {
     static LAST_PANIC: RefCell<Option<String>> = const { RefCell::new(None) };
+    static LAST_TICKS: std::cell::Cell<u64> = const { std::cell::Cell::new(0) };
     static FN_CACHE: RefCell<HashMap<(String, u32), String>> = RefCell::new(HashMap::new());
 }
 
-pub const DEFAULT_BUDGET: u64 = 3_000_000;
+pub const DEFAULT_BUDGET: u64 = 300_000;
+static SHRINKING: std::sync::atomic::AtomicBool = std::sync::atomic::AtomicBool::new(false);
+/// While proptest shrinks a failing case, budgets are divided by 8 (a loop that never ends exhausts any budget);
+/// the shrunk case is re-checked under the full budget before it is reported.
+pub fn set_shrinking(on: bool) { SHRINKING.store(on, std::sync::atomic::Ordering::Relaxed); }
 
 fn mask_numbers(s: &str) -> String {
     let mut out = String::new();
@@ -43,16 +49,19 @@ fn mask_numbers(s: &str) -> String {
 
 fn enclosing_fn() -> String {
     let bt = std::backtrace::Backtrace::force_capture().to_string();
-    // frames look like "  12: asca::subrule::SubRule::apply" ; take the first asca:: frame that is not a hook or a closure shim
+    // frames look like "  11: input_match_structure" followed by "             at /repo/src/subrule.rs:2161:84";
+    // the innermost frame whose source file is under /repo/src (inlined std frames come first) names the enclosing function
+    let mut sym = String::new();
     for line in bt.lines() {
         let l = line.trim();
-        if let Some(idx) = l.find("asca::") {
-            let name = &l[idx..];
-            if name.starts_with("asca::verif") { continue }
-            let name = name.split("::{{closure}}").next().unwrap_or(name);
-            // drop hash suffix ::h0123...
-            let name = match name.rfind("::h") { Some(i) if name.len() - i == 19 => &name[..i], _ => name };
-            return name.to_string();
+        if let Some(loc) = l.strip_prefix("at ") {
+            if loc.starts_with("/repo/src/") && !loc.starts_with("/repo/src/verif.rs") {
+                let name = sym.split("::{{closure}}").next().unwrap_or(&sym);
+                let name = name.split('<').next().unwrap_or(name);
+                return name.rsplit("::").next().unwrap_or(name).to_string();
+            }
+        } else if let Some((idx, rest)) = l.split_once(": ") {
+            if !idx.is_empty() && idx.chars().all(|c| c.is_ascii_digit()) { sym = rest.trim().to_string(); }
         }
     }
     "?".to_string()
@@ -80,14 +89,16 @@ pub fn init() {
 }
 
 pub fn guarded<T>(budget: u64, f: impl FnOnce() -> Result<T, Error>) -> Guarded<T> {
+    let budget = if budget > 0 && SHRINKING.load(std::sync::atomic::Ordering::Relaxed) { (budget / 8).max(2_000) } else { budget };
     verif::set_budget(budget);
     let r = catch_unwind(AssertUnwindSafe(f));
+    LAST_TICKS.with(|t| t.set(verif::ticks()));
     verif::set_budget(0);
     match r {
         Ok(x) => Ok(x),
         Err(payload) => {
             if let Some(b) = payload.downcast_ref::<BudgetExhausted>() {
-                Err(Abn::Budget { dominant: b.dominant_site, last: b.last_site })
+                Err(Abn::Budget { dominant: b.dominant_site, last: b.last_site, rule_type: b.rule_type })
             } else {
                 let sig = LAST_PANIC.with(|p| p.borrow_mut().take()).unwrap_or_else(|| "panic|?|?|?".into());
                 Err(Abn::Panic(sig))
@@ -101,7 +112,8 @@ pub fn guarded_plain<T>(budget: u64, f: impl FnOnce() -> T) -> Result<T, Abn> {
     match guarded(budget, || Ok(f())) { Ok(Ok(x)) => Ok(x), Ok(Err(_)) => unreachable!(), Err(a) => Err(a) }
 }
 
-pub fn ticks() -> u64 { verif::ticks() }
+/// ticks consumed by the most recent guarded call on this thread
+pub fn last_ticks() -> u64 { LAST_TICKS.with(|t| t.get()) }
 
 pub fn groups(rules: &[String]) -> Vec<RuleGroup> { vec![RuleGroup::from_rules(rules.to_vec())] }
 
@@ -131,13 +143,22 @@ pub fn apply_rules(rules: &[String], w: &Word) -> Guarded<Word> {
 
 pub fn err_variant(e: &Error) -> String {
     let d = format!("{e:?}");
-    // "RuleRun(UnknownVariable(...))" -> "RuleRun(UnknownVariable"
-    let mut depth = 0; let mut out = String::new();
-    for c in d.chars() {
-        if c == '(' || c == '{' { depth += 1; if depth > 2 { break } }
-        if c == ' ' && depth >= 2 { break }
-        out.push(c);
-        if depth >= 2 && (c == ')' ) { break }
-    }
-    out.trim_end_matches('(').to_string()
+    // "RuleRun(UnknownVariable(..))" -> "RuleRun(UnknownVariable)"
+    let Some(i) = d.find('(') else { return d };
+    let outer = &d[..i];
+    let inner: String = d[i + 1..].chars().take_while(|c| c.is_alphanumeric() || *c == '_').collect();
+    format!("{outer}({inner})")
+}
+
+/// Formats an error the way the CLI / web front end does (the matching formatter for its kind), guarded.
+pub fn format_error(e: &Error, groups: &[RuleGroup], words: &[String], into: &[String], from: &[String]) -> Result<String, Abn> {
+    use asca::ASCAError;
+    guarded_plain(DEFAULT_BUDGET, || match e {
+        Error::WordSyn(x) => x.format_word_error(words),
+        Error::WordRun(x) => x.format_word_error(words),
+        Error::AliasSyn(x) => x.format_alias_error(into, from),
+        Error::AliasRun(x) => x.format_alias_error(into, from),
+        Error::RuleSyn(x) => x.format_rule_error(groups),
+        Error::RuleRun(x) => x.format_rule_error(groups),
+    })
 }
